@@ -374,3 +374,19 @@ Fixpoint handle_run (nc : nullchunk) (idx : index) (s : ipos) (rqs : list (store
       let '(s'', rs) := handle_run nc idx s' rest in
       (s'', r :: rs)
   end.
+
+(* ---- concurrent requests on ONE handle ----
+   indexFileHandle.read holds the handle's mutex from before the Seek until after the Read: requests that arrive on a
+   handle while another one is under way (kernel read-ahead) wait, and are served one at a time in whatever order the
+   mutex lets them in -- some permutation of the arrival order.  [fuse_run] takes the requests in the order in which they
+   are served; [fuse_answer_ok] is what each answer must be whatever that order is. *)
+Definition fuse_answer_ok (blob : bytes) (store : store_t) (n : nat) (rq : nat * Z * nat) (r : option fres) : Prop :=
+  let '(h, off, len) := rq in
+  let L := Z.of_nat (length blob) in
+  match r with
+  | None => (n <= h)%nat
+  | Some (FData d) => 0 <= off <= L /\ d = slice blob (Z.to_nat off) (length d) /\
+                      Z.of_nat (length d) = Z.min (Z.of_nat len) (L - off)
+  | Some FEIO => off < 0 \/ L < off \/ exists c k i, store k i = SFail c
+  | Some _ => False
+  end.
